@@ -707,6 +707,24 @@ fn push_outcome(outcomes: &mut Vec<(Vec<Ev>, Term)>, o: (Vec<Ev>, Term), s: &[u8
     }
 }
 
+/// Entry point of the libFuzzer target: one (string, chunking, ending) run against the reference.
+pub fn fuzz_one(s: &[u8], mask: u64, fin: bool, pend: bool, rep: &mut Report) {
+    if s.is_empty() {
+        return;
+    }
+    let ending = if fin { Ending::Fin } else { Ending::Open };
+    let ex = expect(s, ending);
+    let chunks = cut_by_mask(s, mask);
+    check_one(s, ending, &chunks, pend, &ex, rep);
+    // and the whole string in one chunk: the outcome must not depend on the chunking
+    let whole = vec![s.to_vec()];
+    let mut outcomes = Vec::new();
+    let o1 = check_one(s, ending, &whole, false, &ex, rep);
+    push_outcome(&mut outcomes, o1, s, ending, &whole, &[s.len()], rep);
+    let o2 = drive(&chunks, ending, pend);
+    push_outcome(&mut outcomes, o2, s, ending, &chunks, &[s.len()], rep);
+}
+
 fn run_case(gen: &str, index: u64, seed: u64, tier: Tier, rep: &mut Report) {
     let mut rng = Rng::new(seed);
     let all_upto = match tier {
